@@ -52,7 +52,7 @@ def main():
                 "engine": "lean4-proof+correspondence",
                 "level_claimed": {"category": "proof", "text": text, "design_ref": ref},
                 "level_note": NOTE,
-                "technique": "Lean 4 theorem over a hand-written executable model + differential correspondence check against /repo" + (" + kernels translated from the source text on every run and compared with the terms the theorems are about" if pid in ("C01", "C03", "C06", "C08", "C09", "C12", "C14", "C18") else ""),
+                "technique": "Lean 4 theorem over a hand-written executable model + differential correspondence check against /repo" + (" + kernels translated from the source text on every run and compared with the terms the theorems are about" if pid in ("C01", "C03", "C05", "C06", "C08", "C09", "C12", "C14", "C18") else ""),
             })
         else:
             na.append({"property_id": pid, "reason": "check not yet built in this tree (planned: Lean theorem + correspondence, see DESIGN.md §5)"})
